@@ -294,8 +294,8 @@ theorem multiPolygonCentroidCore_scale (kx ky : Rat) (hx : 0 < kx) (hy : 0 < ky)
   rw [h0, mpCentroidAcc_scale kx ky hx hy, ← h0, finish_sc kx ky hx hy]
 
 /-- **`MultiPolygon.Centroid` with its range guard is its loop**, on every input (exact model). -/
-theorem C03_mcentroid_guard (mp : MPoly) : multiPolygonCentroid mp = multiPolygonCentroidCore mp := by
-  unfold multiPolygonCentroid
+theorem C03_mcentroid_guard (mp : MPoly) : multiPolygonCentroidScaled mp = multiPolygonCentroidCore mp := by
+  unfold multiPolygonCentroidScaled
   cases h : centScale mp.flatten with
   | none => rfl
   | some k =>
@@ -309,7 +309,7 @@ theorem C03_mcentroid_guarded_all (mp : MPoly) (sss : List (List Spell))
     (hclosed : ∀ ss ∈ sss, ∀ s ∈ ss, s.closed = true)
     (hv : ∀ p ∈ mp, ValidPoly p = true)
     (hW : ((mp.flatMap weights).map (·.1)).sum ≠ 0) :
-    multiPolygonCentroid (List.zipWith respell sss mp) = (.fin (mcentroid mp).x, .fin (mcentroid mp).y) := by
+    multiPolygonCentroidScaled (List.zipWith respell sss mp) = (.fin (mcentroid mp).x, .fin (mcentroid mp).y) := by
   rw [C03_mcentroid_guard]; exact C03_mcentroid mp sss hlen hclosed hv hW
 
 /-- non-vacuity: the guard fires on the two-member example with Y multiplied by 2^400 (all rings closed) -/
